@@ -17,7 +17,8 @@ RULE = ("(a) in-process differential, the recorder posing as each supported back
         "and an own subset-sum hash (own SHA-512 coefficient derivation) give the same field elements; the published "
         "vectors of x5_254_5 and x5_255_5 are reproduced by gadget and reference; emitted constraints are satisfied and "
         "their number depends only on the input length; hash(m), hash(m||0), hash(m||1) are pairwise different and a full "
-        "block differs from its short form. (b) selection paths: one interpreter per (PYSNARK_BACKEND value / pre-imported "
+        "block differs from its short form; the same after importing the hash modules for the first time inside a region "
+        "guarded by a false / true secret condition, a lazily evaluated branch, or under ignore_errors. (b) selection paths: one interpreter per (PYSNARK_BACKEND value / pre-imported "
         "module / auto-detection with stand-ins) asserting that the parameter set bound by pysnark.poseidon_hash is the "
         "one registered for runtime.backend_name and that a backend without registered parameters makes the import raise "
         "instead of using the toy set. Non-trivial = length >= 1 and a value >= 2^128 (a); every selection case (b); "
@@ -91,7 +92,9 @@ def ref_ggh(bits, p):
 
 # ---- in-process part ------------------------------------------------------------
 
-def hash_shard(config, seed, n_examples):
+def hash_shard(config, seed, n_examples, import_ctx="top"):
+    """import_ctx: where this process imports the hash modules for the first time (the test suite recommends importing
+    inside functions): at top level, inside a region guarded by a false / true secret condition, or under ignore_errors"""
     from harness import env, r1cs
     stats = core.Stats()
     p = backends.FIELDS[config]
@@ -101,7 +104,21 @@ def hash_shard(config, seed, n_examples):
     if rt.backend_name != config:
         raise core.HarnessError("recorder posing as %s was selected as %r" % (config, rt.backend_name))
     os.environ["PYSNARK_BACKEND"] = config     # the pinned tree keyed the parameters by this variable
+    def first_import():
+        import pysnark.poseidon_hash
+        import pysnark.ggh_hash
+        return 1
     try:
+        if import_ctx == "false-guard":
+            rt.guarded(rt.PrivVal(0))(first_import)()
+        elif import_ctx == "true-guard":
+            rt.guarded(rt.PrivVal(1))(first_import)()
+        elif import_ctx == "ignore":
+            rt.ignore_errors(True)
+            first_import()
+            rt.ignore_errors(False)
+        elif import_ctx == "lazy-branch":
+            ns.br.if_then_else(ns.bo.PrivValBool(0), lambda: rt.PrivVal(first_import()), rt.PrivVal(0))
         import pysnark.poseidon_hash as ph
     finally:
         os.environ.pop("PYSNARK_BACKEND", None)
@@ -127,8 +144,10 @@ def hash_shard(config, seed, n_examples):
             return stats
     # coefficient derivation of the subset-sum hash, index by index (rejection sampling: rare indices need many retries)
     ncoef = 3000 if n_examples < 100 else 120000
+    if import_ctx != "top":
+        ncoef = 100
     lo = (seed % 5) * ncoef
-    for i in list(range(0, 600)) + list(range(lo, lo + ncoef)):
+    for i in list(range(0, 600 if import_ctx == "top" else 40)) + list(range(lo, lo + ncoef)):
         if gh.SHA512_prng(i) != ref_coeff(i, p):
             case = {"config": config, "part": "coefficient", "index": i}
             stats.violations.append({"case": case, "key": "coefficient",
@@ -338,9 +357,12 @@ def run(ctx):
     ctx.rule = RULE
     ctx.assumptions = ["the constants file is used as data by the reference; the published vectors anchor both implementations for x5_254_5 and x5_255_5 (no published vector for the curve25519 set)",
                        "recorder posing as each zkinterface backend; stand-ins for selection paths"]
-    n = 40 if ctx.tier == "quick" else 600
+    n = 30 if ctx.tier == "quick" else 600
     reps = 5 if ctx.tier == "quick" else 5
     jobs = [dict(config=c, seed=ctx.seed * 1000 + 13 * i + k, n_examples=n) for i, c in enumerate(CONFIG_MODULE) for k in range(reps)]
+    # the same differential after a first import inside a guarded region / under ignore_errors
+    jobs += [dict(config=c, seed=ctx.seed * 1000 + 700 + 7 * i + k, n_examples=5 if ctx.tier == "quick" else 150, import_ctx=ic)
+             for i, c in enumerate(CONFIG_MODULE) for k, ic in enumerate(["false-guard", "true-guard", "ignore", "lazy-branch"])]
     total = core.run_shards("harness.checks.c20", "hash_shard", jobs)
     total.merge_json(core.run_shards_optimised("harness.checks.c20", "hash_shard",
                                                [dict(config=c, seed=ctx.seed * 1000 + 900 + i, n_examples=12) for i, c in enumerate(CONFIG_MODULE)]).to_json())
